@@ -380,9 +380,12 @@ def expected(kind, pre, ln):
         if "ALIASED" in outs:
             return None, "iter_mut handed out two references to the same element"
         return c, None
-    if op in ("extend", "from_iter", "from_vec", "deser"):
+    if op in ("extend", "from_iter", "from_vec", "deser", "deser_hint"):
         if op in ("extend", "from_iter"):
             es, _ = entries(a, 2)
+        elif op == "deser_hint":
+            es, _ = entries(a, 1)
+            op = "deser"
         else:
             es, _ = entries(a, 0)
         if op != "extend":
@@ -540,7 +543,7 @@ def j_cost(kind, pre, ln):
         bound = 0
     elif op in ("peek_max", "peek_max_mut"):
         bound = 1
-    elif op in ("from_vec", "from_iter", "deser"):
+    elif op in ("from_vec", "from_iter", "deser", "deser_hint"):
         bound = c * m
     elif op in ("retain", "retain_mut", "iter_mut"):
         bound = c * m
@@ -810,7 +813,7 @@ def judge_case(prop, kind, lines):
             ln = parse_line(text)
         if ln.op == "iter_mut" and ln.args and ln.args[0] == "forget":
             order_unspecified = True
-        elif ln.op in ("clear", "drain", "from_vec", "from_iter", "deser", "serde_rt", "convert", "retain", "retain_mut", "append") or (
+        elif ln.op in ("clear", "drain", "from_vec", "from_iter", "deser", "deser_hint", "deser_unit", "fresh", "serde_rt", "convert", "retain", "retain_mut", "append") or (
                 ln.op == "iter_mut" and ln.args and ln.args[0] == "drop"):
             order_unspecified = False   # these rebuild the whole heap (or empty it)
         ln.unordered = order_unspecified
